@@ -1092,7 +1092,7 @@ class Processor:
                             ele_val, translated_path.separator))
                     next_ancestry = ancestry + [(data, ele)]
                     yield NodeCoords(
-                        ele, data, stripped_attrs,
+                        ele, data, ele,
                         next_translated_path, next_ancestry, pathseg)
                     break
 
